@@ -219,7 +219,12 @@ func step(p *pool, tag string) (MalType, string, bool) {
 	var err error
 	switch op {
 	case "conj1":
-		r, err = call("conj", p.pick(tag+"/a"), x)
+		// the new element may be nil: nil is a legitimate element, not an "unused slot"
+		var xe MalType = x
+		if vrt.Bool(tag + "/xnil") {
+			xe = nil
+		}
+		r, err = call("conj", p.pick(tag+"/a"), xe)
 	case "conj2":
 		r, err = call("conj", p.pick(tag+"/a"), x, y)
 	case "concat2":
